@@ -57,6 +57,8 @@ func c12Source(mods []c12Mod, i int) string {
 	} else {
 		sb.WriteString("\tlazy: func() { return -1 },\n")
 	}
+	// the builtin module value is one object per VM, whoever imports it
+	sb.WriteString("\thinc: func() { hh := import(\"host\"); hh.arr[1] += 1; return hh.arr[1] },\n")
 	sb.WriteString("}\n")
 	return sb.String()
 }
@@ -75,8 +77,8 @@ func c12Driver(mods []c12Mod, steps int, topImports []int) string {
 	sb.WriteString("]\n")
 	fmt.Fprintf(&sb, "for step := 0; step < %d; step++ {\n", steps)
 	fmt.Fprintf(&sb, "\tk := (choose(0) * 4 + choose(1)) %% %d\n", len(mods))
-	sb.WriteString("\tvia := choose(2)\n\tact := choose(3)\n\ttry {\n\t\tm := undefined\n\t\tif via > 1 { m = call(imps[k]) } else { m = imps[k]() }\n")
-	sb.WriteString("\t\tr := undefined\n\t\tif act == 0 { r = m.inc() } else if act == 1 { r = m.get() } else if act == 2 { r = m.depinc() } else { r = m.lazy() }\n")
+	sb.WriteString("\tvia := choose(2)\n\tact := choose(3)\n\tif choose(4) > 2 { act = act + 4 }\n\ttry {\n\t\tm := undefined\n\t\tif via > 1 { m = call(imps[k]) } else { m = imps[k]() }\n")
+	sb.WriteString("\t\tr := undefined\n\t\tif act == 0 || act == 7 { r = m.inc() } else if act == 1 || act == 6 { r = m.get() } else if act == 2 { r = m.depinc() } else if act == 3 { r = m.lazy() } else if act == 4 { r = m.hinc() } else { h.arr[1] += 1; r = h.arr[1] }\n")
 	sb.WriteString("\t\tlog(\"step\", k, act, r)\n\t} catch e {\n\t\tlog(\"fail\", k, e.Message)\n\t}\n}\nreturn \"done\"\n")
 	return sb.String()
 }
@@ -94,6 +96,7 @@ type c12Model struct {
 	chooseN map[int]int
 	failMsg string
 	reload  bool // a body started again after a failed attempt
+	hostCnt int  // host.arr[1], one value per VM
 }
 
 func (m *c12Model) choose(id int) int {
@@ -139,11 +142,14 @@ func (m *c12Model) act(k, act int) (int, bool) {
 		return 0, false
 	}
 	switch act {
-	case 0:
+	case 0, 7:
 		m.cnt[k]++
 		return m.cnt[k], true
-	case 1:
+	case 1, 6:
 		return m.cnt[k], true
+	case 4, 5:
+		m.hostCnt++
+		return m.hostCnt, true
 	case 2:
 		if len(m.mods[k].topDeps) == 0 {
 			return -1, true
@@ -177,6 +183,9 @@ func (m *c12Model) run(steps int, topImports []int) sim.Outcome {
 		k := (m.choose(0)*4 + m.choose(1)) % len(m.mods)
 		m.choose(2)
 		act := m.choose(3)
+		if m.choose(4) > 2 {
+			act += 4
+		}
 		if r, ok := m.act(k, act); ok {
 			m.hist = append(m.hist, fmt.Sprintf("s:\"step\" i:%d i:%d i:%d", k, act, r))
 		} else {
@@ -303,7 +312,7 @@ func c12Run(rc *sim.RunCtx) {
 
 	// host world
 	spec := &sim.WorldSpec{Name: "w0"}
-	for id := 0; id < 4; id++ {
+	for id := 0; id < 5; id++ {
 		row := make([]int, steps)
 		for j := range row {
 			row[j] = t.Draw(4)
@@ -405,7 +414,7 @@ func c12Run(rc *sim.RunCtx) {
 		rc.Probe("after-encode-decode")
 	}
 
-	model := &c12Model{mods: mods, spec: spec, loaded: make([]bool, n), cnt: make([]int, n), mopOcc: make([]int, n), bodies: make([]int, n), chooseN: map[int]int{}}
+	model := &c12Model{hostCnt: 2, mods: mods, spec: spec, loaded: make([]bool, n), cnt: make([]int, n), mopOcc: make([]int, n), bodies: make([]int, n), chooseN: map[int]int{}}
 	want := model.run(steps, topImports)
 
 	pool := &sim.SimPool{T: t}
@@ -479,7 +488,7 @@ func init() {
 	sim.Register(&sim.Engine{
 		ID:    "C12",
 		Level: "exploration",
-		Rule: "each run draws an import graph over 2–8 source modules (edges from lower to higher index: imports at the top of a body and imports inside exported functions; a quarter of the modules are files behind importers.FileImporter with a simulated FileReader), compiles a driver whose loop lets the host choose at every step the module, the route (direct call of an import site or through a child VM) and the action (inc/get own state, inc through a dependency's import, import-and-inc inside a function), and may make a module body fail on its first attempt. " +
+		Rule: "each run draws an import graph over 2–8 source modules (edges from lower to higher index: imports at the top of a body and imports inside exported functions; a quarter of the modules are files behind importers.FileImporter with a simulated FileReader), compiles a driver whose loop lets the host choose at every step the module, the route (direct call of an import site or through a child VM) and the action (inc/get own state, inc through a dependency's import, import-and-inc inside a function, increment a builtin-module value through the module's or the main script's import), and may make a module body fail on its first attempt. " +
 			"Oracle: history and outcome equal a model in which a body runs once per successful load (a failed body may start again) and every import of a module reaches one shared state; a second VM of the same Bytecode behaves identically (builtin-module values private). " +
 			"3/7 of the runs are negative graphs — a cycle of drawn length (closed through a top-level or an in-function import), an unknown module, a failing file read — which Compile must reject (30 s watchdog). Swarm: optimizer on/off, encode/decode round trip. Distinct = distinct (graph, choice table, fault table).",
 		Assumptions: []string{"module bodies report through a builtin module (source modules cannot see globals)", "the model (≈80 lines) encodes: load = body + top-level deps in order + possible failure; state per module is one counter"},
